@@ -18,10 +18,16 @@
 
     Interleaving semantics: a schedule is any list of [label]s; each label is one atomic step
     of one process ([Deliver] is the kernel delivering a pending signal to the launcher). *)
-From Coq Require Import List Bool Arith String.
+From Coq Require Import List Bool Arith NArith String Ascii.
 Import ListNotations.
 
-Inductive action := ANotify | AStart | AWritePid | ASpawnWait | ASelect | AUnknown (what : string).
+(** what the extractor could not recognise, as bytes; the extractor prints [AUnknown "…"] and the
+    string literal is read through this coercion (strings themselves are never extracted) *)
+Definition ubytes := list N.
+Definition bytes_of_string (s : string) : ubytes := map N_of_ascii (list_ascii_of_string s).
+Coercion bytes_of_string : string >-> ubytes.
+
+Inductive action := ANotify | AStart | AWritePid | ASpawnWait | ASelect | AUnknown (what : ubytes).
 
 Definition pid := nat.
 Definition pid_init : pid := 1.      (* init or a subreaper: whoever adopts orphans *)
